@@ -102,3 +102,26 @@ package baseoutput
 //@   define   mkI == nrecv(session.inputChannel) && mkA == nsent(session.ackerChan)
 //@   modifies everything
 //@   loop 1: invariant sessok(session) && session.lastChunk == nil && nrecv(session.inputChannel) - mkI == nsent(session.ackerChan) - mkA
+
+// ---- leftovers are retransmitted oldest first (C05, C02): the comparator orders by ID only; the channel is filled in slice
+// order, skipping a chunk whose ID equals the one just sent - so the IDs sent strictly increase (sorted, no duplicates).
+// Trusted: sort.Slice leaves the slice ordered by its comparator. The only sort.Slice over chunks in the repository is the
+// one in newLeftoverChannel, whose comparator (newLeftoverChannel$1) is proved below to order by ID only - so the trusted
+// contract states the result directly as "ordered by srank(ID)" for slices of chunks.
+//@ extern func sort.Slice(x any, less func(i, j int) bool)
+//@   modifies mem(base.LogChunk)
+//@   ensures typeis(x, []base.LogChunk) ==> len(as(x, []base.LogChunk)) == old(len(as(x, []base.LogChunk))) && forall a int, b int :: 0 <= a && a < b && b < len(as(x, []base.LogChunk)) ==> srank(as(x, []base.LogChunk)[a].ID) <= srank(as(x, []base.LogChunk)[b].ID)
+//@ func newLeftoverChannel$1(i, j int) bool
+//@   property C05 C02
+//@   requires 0 <= i && i < len(chunks) && 0 <= j && j < len(chunks)
+//@   modifies nothing
+//@   ensures[orders-by-id-only] result <==> srank(chunks[i].ID) < srank(chunks[j].ID)
+//@ func newLeftoverChannel(chunks []base.LogChunk) chan base.LogChunk
+//@   property C05 C02
+//@   modifies mem(base.LogChunk)
+//@   ensures result != nil
+//@   loop 1: invariant -1 <= rangeindex && rangeindex < len(chunks) && channel != nil
+//@   loop 1: invariant[slice-is-sorted-by-id] forall a int, b int :: 0 <= a && a < b && b < len(chunks) ==> srank(chunks[a].ID) <= srank(chunks[b].ID)
+//@   loop 1: invariant[sent-so-far-is-below-the-rest] nsent(channel) == 0 || (forall k int :: rangeindex < k && k < len(chunks) ==> srank(lastChunkID) <= srank(chunks[k].ID))
+//@   loop 1: step[ids-sent-strictly-increase] (nsent(channel) == prev(nsent(channel)) && lastChunkID === prev(lastChunkID))
+//@        || (nsent(channel) == prev(nsent(channel)) + 1 && lastChunkID === chunks[rangeindex].ID && (prev(nsent(channel)) == 0 || srank(lastChunkID) > srank(prev(lastChunkID))))
